@@ -1,0 +1,10 @@
+//go:build verif
+
+// Contracts for gzv (contract-based deductive verification, /verif). Comment-only file.
+package rest
+
+// C04: the timeout of a route is its own positive setting, otherwise the server-wide configured one (never another route's).
+//@ func (ng *engine) checkedTimeout
+//@   property C04
+//@   ensures result == ite(timeout > 0, timeout, time.Duration(ng.conf.Timeout) * time.Millisecond)
+//@   modifies nothing
